@@ -42,6 +42,7 @@ extern "C" {
 
 fn main() {
     // a corrupted world can ask for absurd allocations; fail fast instead of exhausting the machine
+    #[cfg(not(miri))]
     unsafe {
         let lim = RLimit { cur: 8 << 30, max: 8 << 30 };
         setrlimit(9 /* RLIMIT_AS */, &lim);
